@@ -245,8 +245,8 @@ func (res *Response) writeChunk(conn net.Conn, data []byte, l int) (int, error) 
 		pbuf = mempool.AppendString(pbuf, lenStr)
 		pbuf = mempool.AppendString(pbuf, "\r\n")
 		_, err = conn.Write(*pbuf)
-		mempool.Free(pbuf)
 		if err != nil {
+			mempool.Free(pbuf)
 			return 0, err
 		}
 
